@@ -11,6 +11,13 @@ def run(tier, seed):
     quick = tier == "quick"
     vlib.tlc_check(chk, "H_Eventual abstract object, exhaustive", os.path.join(SPEC, "H_Eventual.tla"), os.path.join(SPEC, "H_EventualMC.cfg"), timeout=600)
     vlib.tlc_check(chk, "H_Future abstract object, exhaustive", os.path.join(SPEC, "H_Future.tla"), os.path.join(SPEC, "H_FutureMC.cfg"), timeout=600)
+    d = os.path.join(VERIF, "spec", "sync")
+    vlib.tlc_check(chk, "EventualProto: set / wait under the object's lock as coded (value read outside the critical section), exhaustive incl. liveness",
+                   os.path.join(d, "EventualProto.tla"), os.path.join(d, "EventualProtoMC.cfg"), timeout=600)
+    r = vlib.tlc_check(chk, "EventualProto reading `ready` before taking the lock (must be violated: two successful sets)",
+                       os.path.join(d, "EventualProto.tla"), os.path.join(d, "EventualProtoEarly.cfg"), timeout=600, expect="violation")
+    if not r["violated"]:
+        raise vlib.Broken("the ready-before-lock variant of EventualProto is not rejected: the invariants are vacuous")
     vlib.history_check(chk, "d_sync", ["eventual"], "H_Eventual", quick, seed,
                        what="eventual history is not a history of a set-once/wait/test/reset object")
     vlib.history_check(chk, "d_sync", ["future"], "H_Future", quick, seed,
